@@ -178,6 +178,23 @@ func init() {
 			return o
 		}
 		o["c1_later"] = c20Strings(kept)
+		// rewrites that change the form, not the columns: DISTINCT x -> distinct(x); RewriteTimeFields once more (there is
+		// no time field left to remove), on a fresh parse and on a clone of the statement
+		for _, h := range []struct {
+			key string
+			f   func() []string
+		}{
+			{"c7", func() []string { t, _ := c20Parse(text, c); t.RewriteDistinct(); return t.ColumnNames() }},
+			{"c8", func() []string { t, _ := c20Parse(text, c); t.RewriteTimeFields(); return t.ColumnNames() }},
+			{"c9", func() []string { t, _ := c20Parse(text, c); cl := t.Clone(); cl.RewriteTimeFields(); return cl.ColumnNames() }},
+		} {
+			var cols []string
+			if p := guard(func() { cols = h.f() }); p != "" {
+				o["panic"] = h.key + ": " + p
+				return o
+			}
+			o[h.key] = c20Strings(cols)
+		}
 		return o
 	}})
 }
